@@ -227,6 +227,25 @@ class C06Life(Monitor):
                     self.cov(f"cause.{cc}")
                 self.nt((cname, causes[0]))
         elif self.was_active.get(deme.id) and deme.is_active:
+            # the global stop condition as it stands at the end of this deme's metaepoch (evaluated by the monitor
+            # through the wrapped condition, outside any context so that no event is recorded)
+            holds = None
+            tree = self.ctx.tree
+            inner = getattr(getattr(tree, "_gsc", None), "inner", None)
+            if inner is not None:
+                from ..harness import activate
+
+                with activate(None):
+                    try:
+                        holds = bool(inner(tree))
+                    except Exception:
+                        holds = None
+            if holds is None:
+                self.cov("gsc_at_exit_not_observable")
+            else:
+                self.cov("gsc_at_exit_checked")
+                if holds:
+                    self.v(f"global stop condition held at the end of the deme's metaepoch but the deme stayed active: {cname}", deme=deme.id, consulted_true=gsc_true)
             if lsc_true:
                 self.v(f"local stop condition held at the end of the metaepoch but the deme stayed active: {cname}", deme=deme.id)
             if gsc_true:
@@ -318,8 +337,9 @@ class C07Structure(Monitor):
                     self.v("deme.level != index of the level holding it", deme=d.id, level=d.level, held_in=li)
                 if eng is not None and type(d).__name__ != ENGINE_CLASS[eng]:
                     self.v("deme is not of the engine configured for its level", deme=d.id, have=type(d).__name__, configured=ENGINE_CLASS[eng])
-                if eng == "custom":
+                if eng in ("custom", "custom_ea"):
                     self.cov("custom_deme_class_seen")
+                    self.cov(f"custom_deme_class_seen.{eng}")
                 ps = parents.get(id(d), [])
                 if li == 0:
                     if ps:
@@ -407,7 +427,7 @@ class C07Structure(Monitor):
         if deme.level != parent.level + 1:
             self.v("child not created one level below its parent", deme=deme.id, parent=parent.id)
         cname = type(deme).__name__
-        if cname in ("EADeme", "DEDeme", "SHADEDeme"):
+        if cname in ("EADeme", "DEDeme", "SHADEDeme", "TaggedEADeme"):
             first = deme.history[0]
             sk = canon(ind.genome).tobytes()
             self.cov("pop_children_checked")
